@@ -49,7 +49,8 @@ Definition err_base64 (s : ios) : ios * Z := nw_done s MSG_501_B64.
 Fixpoint authgetl_read (r : list rdres) (authin : bytes) : Cres (list rdres * (bytes + N)) :=
   match r with
   | [] => Ok ([], inr ECONN_H)
-  | RdErr e :: r' => Ok (r', inr e)
+  | RdErr e :: r' => if N.eqb e 0 then Crash 22        (* -1 with errno 0: "return -errno" reads as success, the freed line is used *)
+                     else Ok (r', inr e)
   | RdChunk b :: r' =>
       if Nat.ltb AUTH_CHUNK (length b) then Crash 20            (* more than the buffer has room for *)
       else
